@@ -75,10 +75,11 @@ def _check_range(ctx, op, v):
             ctx.viol("bool-wrong-type", {"value": repr(v)})
 
 
-def _script(streams, ops, ctx, other=None, judge=False):
+def _script(streams, ops, ctx, other=None, judge=False, seed0=None):
     """run ops in lock-step on all `streams`; returns the list of per-op results of streams[0]"""
     from vlib.base import fx
     res = []
+    cur_seed = [seed0]
     saves = {}        # slot -> (states per stream, index into res)
     for op in ops:
         k = op[0]
@@ -98,6 +99,7 @@ def _script(streams, ops, ctx, other=None, judge=False):
         elif k == "seed":
             for s in streams:
                 s.set_seed(op[1])
+            cur_seed[0] = op[1]
             res.append((op, None))
             if judge:
                 _fresh_check(ctx, streams[0], op[1], "set_seed")
@@ -108,7 +110,7 @@ def _script(streams, ops, ctx, other=None, judge=False):
                 s.reset()
             res.append((op, None))
             if judge:
-                cur = streams[0].seed()
+                cur = cur_seed[0]        # the seed the *script* made current (a stream that reports another one is wrong)
                 _fresh_check(ctx, streams[0], cur, "reset")
                 for s in streams:
                     s.reset()
@@ -158,11 +160,11 @@ def run_case(case, ctx):
     a, a2, b = MersenneTwister(seed), MersenneTwister(seed), MersenneTwister(case["bseed"])
     if a.seed() != seed or a.original_seed() != seed:
         ctx.viol("seed-getter-after-construction", {"seed": seed, "got": [a.seed(), a.original_seed()]})
-    r_lock = _script([a, a2], ops, ctx, other=b, judge=True)
+    r_lock = _script([a, a2], ops, ctx, other=b, judge=True, seed0=seed)
     if a.original_seed() != seed:
         ctx.viol("original-seed-changed", {"seed": seed, "got": a.original_seed()})
     solo = MersenneTwister(seed)
-    r_solo = _script([solo], ops, ctx, other=None, judge=False)
+    r_solo = _script([solo], ops, ctx, other=None, judge=False, seed0=seed)
     ctx.count("draw_comparisons", len(r_solo))
     if r_lock != r_solo:
         first = next(i for i, (x, y) in enumerate(zip(r_lock, r_solo)) if x != y)
